@@ -74,10 +74,24 @@ Print Assumptions load_split_any_index.
    StopIteration from then on; iter() delivers nothing and does not move the position.  Hence the
    delivered indices are exactly the slice's indices in order, each once, whatever the chunk size. *)
 Theorem iterator_histories : forall st k a b s it ops s0 e0 p0, inv st -> ana_ok st -> 1 <= k ->
-  iter_init st a b s = inr (s0, e0, p0) -> it_new st k a b s = inr it ->
+  iter_init st a b s = inr (s0, e0, p0) -> it_new st k a b s = inr it -> reads_ok s0 e0 p0 0 ops ->
   it_run st it ops = inr (spec_run st s0 e0 p0 0 ops).
 Proof. exact it_run_spec. Qed.
 Print Assumptions iterator_histories.
+
+(* (the op alphabet also has IRead = reading every accessor of the current event again: it reports the
+   event delivered by the last next(), index a+(j-1)*step, however many chunk loads, iter() calls
+   or other reads happened since; reads_ok only asks that some event has been delivered) *)
+
+(* two live iterators over one opened file driven by one interleaved history: each delivers and
+   re-reads exactly what its own sub-history gives on its own -- operations on one iterator never
+   change what the other, or an event it already delivered, reports; with iterator_histories both
+   sub-histories are the specification streams *)
+Theorem two_live_iterators : forall st ops i1 i2 os, it_run2 st i1 i2 ops = inr os ->
+  it_run st i1 (proj true ops) = inr (proj_out true ops os) /\
+  it_run st i2 (proj false ops) = inr (proj_out false ops os).
+Proof. exact two_iterators_independent. Qed.
+Print Assumptions two_live_iterators.
 
 (* the indices a history delivers are strictly increasing (no repetition, no reordering) *)
 Theorem delivered_in_order : forall ops a stop step j, 1 <= step ->
